@@ -468,5 +468,16 @@ def no_stale(ctx):
                        'the attenuation refers to an earlier call', min_methods=3)
 
 
-RULES = [no_stale, wmw_intensity, write_shape, beer_lambert, lost_write, aperture,
+def c12_arg_names(ctx):
+    """shared with C12: arguments spelled like a parameter (x, self.x,
+    data['x']) are bound to that parameter - constructor calls in from_dict
+    included"""
+    from .C12 import arg_names_rule as _r
+    return _r(ctx)
+
+def derived_sync_rule(ctx):
+    from .common import derived_sync
+    return derived_sync(ctx, 'DERIVED-SYNC')
+
+RULES = [derived_sync_rule, c12_arg_names, no_stale, wmw_intensity, write_shape, beer_lambert, lost_write, aperture,
          coating_pair, record_intensity]
